@@ -81,6 +81,7 @@ class TvResult:
         self.rejected_at = None     # 1-based line number
         self.rejected = None        # the record
         self.violation = None       # invariant violated while replaying
+        self.last_state = ""
         self.error = None
         self.tlc = None
 
@@ -102,18 +103,18 @@ def validate_trace(module, trace_path, name, constants=None, invariants=(), time
                 dfs_queue=True, heap=heap)
     res.tlc = r
     m = re.search(r'"TRACE_REJECTED",\s*(\d+)', r.stdout)
+    if r.violation and r.violation != "postcondition":
+        # an invariant of the spec failed on the state reached by replaying the real steps
+        res.violation = r.violation
+        res.rejected_at = (int(m.group(1)) - 1) if m else (len(r.trace) or None)
+        res.last_state = r.trace[-1]["text"] if r.trace else ""
+        return res
     if m:
         res.rejected_at = int(m.group(1))
         try:
             res.rejected = read_ndjson(trace_path)[res.rejected_at - 1]
         except Exception:
             res.rejected = "line %d" % res.rejected_at
-        return res
-    if r.violation and r.violation != "postcondition":
-        res.violation = r.violation
-        # the depth reached tells where
-        m = re.search(r"(\d+) states generated", r.stdout)
-        res.rejected_at = len(r.trace) if r.trace else None
         return res
     if r.ok:
         res.accepted = True
@@ -227,6 +228,10 @@ class Check:
         self.tv.append({"module": module, "name": name, "lines": tv.lines,
                         "accepted": tv.accepted, "rejected_at": tv.rejected_at,
                         "rejected": tv.rejected, "violation": tv.violation, "error": tv.error})
+        if tv.tlc is not None:
+            # every trace line is a state of the (trace) spec on which TLC evaluated the invariants
+            self.states += tv.tlc.distinct
+            self.transitions += tv.tlc.generated
         if tv.error:
             raise ToolError("trace validation %s failed: %s\n%s" % (
                 name, tv.error, tv.tlc.stdout[-1500:] if tv.tlc else ""))
@@ -253,7 +258,7 @@ class Check:
                 break
             at = tv.rejected_at or 1
             n = scenario_of_line(path, at)
-            what = tv.rejected if tv.rejected is not None else tv.violation
+            what = tv.violation if tv.violation else tv.rejected
             rejections.append((n, what, classify(tv)))
             accepted_lines += max(at - 1, 0)
             rounds += 1
